@@ -9,6 +9,12 @@ MANIFEST = dict(
          "with every data environment over the names it uses, checks the interpreter's design laws on all of them, and emits "
          "(template, data, expected tokens). Each is serialised, rendered by the real engine under several concretisations "
          "and judged by Tmpl_Trace.tla, which attributes a deviation to the minimal set of construct classes showing it. "
+         "Values range over plain text, numbers, booleans, empty, directive-like text, regexp-replacement syntax, newlines, the "
+         "engine's image marker and text containing the placeholder of another variable / item field (classed by whether "
+         "that name is supplied where the value is inserted: val:ref, val:fref, val:ref0); quoted names (blocks, the extended "
+         "template) range over identifiers and free text (hyphen, space, dot, non-ASCII). The laws Inv_Opaque (a value acts "
+         "only as its token and its truthiness) and Inv_Names (names are only compared) state at design level that neither is "
+         "ever interpreted. "
          "Exhaustive small scope plus seeded random larger templates is the right level for a pipeline of regular-expression "
          "passes whose defects are interactions of two or three constructs.",
     technique="TLA+ reference interpreter Tmpl; TLC exhaustive enumeration of templates x data (design laws + expected output), "
@@ -17,13 +23,19 @@ MANIFEST = dict(
 
 LEVEL = "model_checking"
 RULE = ("cases = every template AST within the node/depth bound built by the generator of Tmpl_MC.tla (BFS: each exactly once) "
-        "x every data environment over the names the template uses (present/absent/empty, value classes, 0-2 list items), "
+        "x every data environment over the names the template uses (present/absent/empty, value classes incl. values that "
+        "contain the placeholder of another variable or item field, 0-2 list items; layer refs: two variables / two fields "
+        "of one item with every way of supplying, omitting or adding-as-unused the mentioned name), block names and the name "
+        "of the extended template as identifiers and as free text, "
         "plus seeded random larger templates; expected output = Tmpl!Render; every case is rendered by the real engine in "
         "6 concretisation rounds (strings per token class, SetVariable/SetVariables/Merge/FromStruct, RenderToDocument/"
-        "RenderTemplateToDocument) and the paragraph texts joined by newline are compared with the concretised expectation; "
+        "RenderTemplateToDocument; each round with the variables / item fields handed over in ascending and in descending "
+        "order when a map of the data has two or more entries, because the library keeps them in Go maps whose iteration "
+        "order follows the insertion order) and the paragraph texts joined by newline are compared with the concretised expectation; "
         "a deviating case is reported under the minimal set of construct classes (Tmpl!Classes) that deviates in the run")
 
-LAWS = ["Inv_Verbatim", "Inv_Unused", "Inv_AbsentFalse", "Inv_Dual", "Inv_Blocks", "Inv_LoopHom", "Inv_Norm", "Inv_Data"]
+LAWS = ["Inv_Verbatim", "Inv_Opaque", "Inv_Unused", "Inv_AbsentFalse", "Inv_Dual", "Inv_Blocks", "Inv_Names", "Inv_LoopHom",
+        "Inv_Norm", "Inv_Data"]
 
 
 def S(*xs):
@@ -33,16 +45,16 @@ def S(*xs):
 FULL = dict(
     Lits=S("p1", "p2", "nl", "br1", "br2", "x1"), Vars=S("v1", "v2"), Conds=S("c1", "c2"),
     Flds=S("f1", "f2"), QFlds=S("q1", "q2"), SubS=S("sub"), SubM=S("subm"), GFlds=S("g1"), RFlds=S("r1"),
-    Blocks=S("b1", "b2"), Imgs=S("im1", "im2"), LoopLeafs=S("this", "idx", "first", "last"),
-    VarVals=S("p1", "n1", "n2", "bT", "e1", "d1", "d2", "d3", "d4", "s1", "w1", "x1"),
-    ThisVals=S("p1", "n1", "bF", "e1", "d1", "d2", "d3", "d4", "s1", "w1", "x1"),
-    FldVals=S("p1", "n0", "e1", "d1", "d2", "d3", "d4", "s1", "w1", "x1"),
+    Blocks=S("b1", "b2", "h1"), TNames=S("t1", "t2"), Imgs=S("im1", "im2"), LoopLeafs=S("this", "idx", "first", "last"),
+    VarVals=S("p1", "n1", "n2", "bT", "e1", "d1", "d2", "d3", "d4", "s1", "w1", "x1", "rv1", "rv2", "rf1"),
+    ThisVals=S("p1", "n1", "bF", "e1", "d1", "d2", "d3", "d4", "s1", "w1", "x1", "rv1", "rf1"),
+    FldVals=S("p1", "n0", "e1", "d1", "d2", "d3", "d4", "s1", "w1", "x1", "rv1", "rf1", "rf2"),
     CondVals=S("bT", "bF", "e1", "p1", "n0", "n1"),
 )
 
 BASE = dict(
     MinNodes=0, Lits=S("p1", "nl"), Vars=S("v1"), Conds=S("c1"), SLists=S("ls"), MLists=S("lm"),
-    Flds=S("f1"), QFlds=S("q1"), SubS=S("sub"), SubM=S(), GFlds=S(), RFlds=S(), Blocks=S("b1"), Imgs=S("im1"),
+    Flds=S("f1"), QFlds=S("q1"), SubS=S("sub"), SubM=S(), GFlds=S(), RFlds=S(), Blocks=S("b1"), TNames=S("t1"), Imgs=S("im1"),
     LoopLeafs=S("this", "idx"), CondOpens=S("if", "ife"), AllowExt=True,
     VarVals=S("p1", "d2"), ThisVals=S("p1"), FldVals=S("p1"), CondVals=S("bT", "bF"),
     NoiseOpts=vlib.Raw("{FALSE}"), Full2=False,
@@ -71,12 +83,22 @@ def tiers(ctx):
         # structure-focused: the non-plain value classes are covered in every position by the wide and loops layers
         mid.update(Lits=S("p1", "nl"), VarVals=S("p1", "d2"), ThisVals=S("p1"), FldVals=S("p1"),
                    CondVals=S("bT", "bF", "p1"), LoopLeafs=S("this", "idx"))
+    # values that mention another name of the data: two variables / two fields of one item, every way of supplying or
+    # omitting the mentioned name (also as data the template does not use), outside and inside a loop
+    refs = dict(Lits=S(), Vars=S("v1", "v2"), Conds=S(), SLists=S(), Flds=S("f1", "f2"), QFlds=S(), SubS=S(), Blocks=S(),
+                Imgs=S(), LoopLeafs=S(), CondOpens=S(), AllowExt=False, VarVals=S("p1", "rv1", "rv2", "rf1"),
+                FldVals=S("p1", "rv1", "rf1", "rf2"), NoiseOpts=NOISE)
+    if not q:
+        # ... and {{this}} of a nested loop over scalars mentioning a field of the enclosing item
+        # (a variable's placeholder in an item value is covered in every position by the wide and loops layers)
+        refs.update(SubS=S("sub"), LoopLeafs=S("this"), ThisVals=S("p1", "rf1"), FldVals=S("p1", "rf1", "rf2"))
     loops = dict(Lits=S(), Conds=S(), QFlds=S(), Blocks=S(), Imgs=S(), CondOpens=S(), AllowExt=False, CondVals=S("bT"))
     layers = {
         # every name, literal and value class in every position of the smallest templates
         "wide": consts(FULL, MaxNodes=2, MaxDepth=3, NoiseOpts=vlib.Raw("{FALSE}") if q else NOISE),
         # every combination of constructs over a reduced alphabet
-        "deep": consts(mid, MaxNodes=3 if q else 4, MaxDepth=3),
+        "deep": consts(mid, MaxNodes=3 if q else 4, MaxDepth=3, Blocks=S("b1", "h1")),
+        "refs": consts(refs, MaxNodes=3 if q else 4, MaxDepth=2 if q else 3),
     }
     if not q:
         # every loop shape up to two levels with every value class and with unused data
@@ -139,6 +161,12 @@ ASSUMPTIONS = [
     "output that is blank as a whole yields no paragraph (splitter behaviour, part of the reference: Tmpl!Norm)",
     "a deviating case is a known finding when its class set includes the class set of a recorded finding (DESIGN §5 C16); "
     "therefore cases containing a known-defective construct cannot reveal a second defect until the first is repaired",
+    "a value that contains {{name}} is expected verbatim whether or not the data supply name (property: nothing inside a value is "
+    "interpreted); the classes val:ref (a supplied global variable), val:fref (a value field of an enclosing loop item) and "
+    "val:ref0 (nobody supplies it there) only attribute a deviation. val:ref deviates on the unchanged tree only under "
+    "inheritance, val:fref inside loops (both recorded findings, split off the catch-all val:d); val:ref0 never",
+    "a quoted name (block, extended template) is any text without a double quote, brace or newline; names are concretised as "
+    "identifiers (b1 b2 t1) or as text with a hyphen, space, dot, colon, slash or non-ASCII letters (h1 h2 t2)",
     "the comparison got == concretised expectation is a plain string equality in the Go harness; the judge recomputes "
     "Tmpl!Render of the logged case and rejects the run (exit 2) if the harness compared against anything else",
 ]
